@@ -478,6 +478,22 @@ func runProp(p *Prog, prop string, secs int, smtDir string) ([]*funcResult, []st
 			jobs = append(jobs, job{r.enc, o})
 		}
 	}
+	// consistency guard for the trusted axioms: the axiom set in scope of the function that uses most of them, with
+	// nothing else asserted, must not be refutable (an inconsistent axiom makes every obligation "provable")
+	var axEnc *Enc
+	for _, r := range results {
+		if r.enc != nil && len(r.enc.axiomAsserts) > 0 && (axEnc == nil || len(r.enc.axiomAsserts) > len(axEnc.axiomAsserts)) {
+			if prop == "" || (r.spec != nil && hasProp(r.spec.Props, prop)) {
+				axEnc = r.enc
+			}
+		}
+	}
+	if axEnc != nil {
+		o := &Obligation{Name: shortFunc(axEnc.root.String()) + "/cover#axioms-consistent", Kind: "cover", Cover: true, Goal: "true", Guard: "true",
+			Func: axEnc.root.String(), Props: axEnc.rootSpec.Props, nOut: 0, enc: axEnc}
+		axEnc.obls = append(axEnc.obls, o)
+		jobs = append(jobs, job{axEnc, o})
+	}
 	solveAll(jobs, smtDir, secs, 5)
 	return results, problems
 }
